@@ -23,3 +23,5 @@ def handle (op : String) : Option Handler :=
   | _ => none
 
 end Driver.C19
+
+def main : IO Unit := Driver.mainLoop Driver.C19.handle
